@@ -71,6 +71,31 @@ def run(pid, root, quiet=False, jobs=None):
                 res['skipped'].append(f'{v["name"]}: {why}')
                 continue
             work.append((v, vroot))
+        # independently seeded changes kept under /verif/seeded: re-applied as patches; those this property's check
+        # reported when they were kept must still be reported
+        seeded_dir = os.path.join(os.path.dirname(os.path.dirname(os.path.abspath(__file__))), 'seeded')
+        if os.path.isdir(seeded_dir):
+            import json
+            import subprocess
+            for name in sorted(os.listdir(seeded_dir)):
+                mp = os.path.join(seeded_dir, name, 'meta.json')
+                if not os.path.exists(mp):
+                    continue
+                meta = json.load(open(mp))
+                rep = meta.get('checks_reporting', {}).get(pid)
+                if not rep or rep.get('exit') != 1:
+                    continue
+                vroot = os.path.join(scratch, 'seed_' + name)
+                os.makedirs(os.path.join(vroot, 'src', 'pydsol'), exist_ok=True)
+                shutil.copytree(base_pkg, os.path.join(vroot, PKG_REL))
+                pr = subprocess.run(['git', 'apply', '--whitespace=nowarn', os.path.join(seeded_dir, name, 'patch.diff')], cwd=vroot,
+                                    stdout=subprocess.PIPE, stderr=subprocess.STDOUT, text=True)
+                if pr.returncode != 0:
+                    res['skipped'].append(f'seeded/{name}: patch no longer applies to the current tree')
+                    continue
+                rules = sorted({f.split()[0] for f in rep.get('findings', []) if f.startswith('R')})
+                work.append(({'name': f'seeded/{name}', 'kind': 'seeded', 'expect': None, 'any_of': rules, 'edits': []}, vroot))
+        res['variants'] = len(variants) + sum(1 for (v, _r) in work if v['name'].startswith('seeded/'))
         res['applicable'] = len(work)
         jobs = jobs or min(16, max(1, len(work)))
         if work:
@@ -85,7 +110,11 @@ def run(pid, root, quiet=False, jobs=None):
             if v['kind'] == 'seeded':
                 want = v['expect']
                 frag = v.get('key', '')
-                hit = [(r, k) for (r, k) in new if r == want and frag in k]
+                if want is None:
+                    hit = list(new)                     # a kept patch: any new finding of this property's check counts
+                    want = 'any rule (was: ' + ','.join(v.get('any_of', [])) + ')'
+                else:
+                    hit = [(r, k) for (r, k) in new if r == want and frag in k]
                 if out[0] == 'ok' and hit:
                     res['seeded_detected'] += 1
                     res['details'].append(f'seeded  {v["name"]}: reported by {hit[0][0]} ({hit[0][1][:80]})')
